@@ -17,7 +17,10 @@ RULE = ("exhaustive: every script of length <= L (L=4 quick, 6 thorough) over {r
         "of each attempt, every sleep chunk of every wait, on_message while connected) on all scripts up to length 3, "
         "reconnect_on_failure off, every script <= 3 (5 thorough) over the ways an accepted connection is lost (EOF, recv error, broker silent = "
         "keepalive expiry, failing PINGREQ write, MQTT 5 server DISCONNECT) mixed with refused/closed, actions on those, "
-        "and random scripts up to length 14 with random delays, losses and actions. "
+        "and random scripts up to length 14 with random delays, losses and actions; half of the action-free random scripts and "
+        "all small scripts with an accepted connection also run with 1..5 QoS 1 messages stored before the run in a window of 1, 2 "
+        "or 20 (persistent session): the retransmission loop of _handle_connack then leaves through its early exits, and the delays "
+        "must be the model's all the same. "
         "distinct = (config, script, action); non-trivial = at least one retry or an action/finality event")
 EXTRACT_TAGS = ["timing"]
 GENERATED_ITEMS = ["_reconnect_wait"]
@@ -27,6 +30,9 @@ ASSUMPTIONS = [
     "keepalive K > 0 only where the script loses a connection by silence (expiry at 2K) or by a failing PINGREQ write (at K); other losses happen sooner than K",
     "the application acts at most once (disconnect() or _thread_terminate := True), from a callback or during a sleep chunk of _reconnect_wait",
     "disconnect() from another thread while connected (outside any callback) is not modelled",
+    "the back-off MODEL has no QoS>0 traffic: stored messages exist on the implementation side only (cases with `pending`), where they "
+    "must not change any delay, attempt or callback; scripts with outcome 7 (the first write after CONNECT fails) and cases with an "
+    "application action run without stored messages",
 ]
 
 C = impl.CLOCK
@@ -85,6 +91,8 @@ def fake_select(r, w, x, timeout=None):
 
 def real_run(case):
     """case: {min,max,retry_first,rof,K,v5,act:None|[attempt,place,arg,kind],script:[[code,arg],...]}
+    optional, implementation side only: pending = number of QoS 1 messages published before the run (persistent session),
+    window = max_inflight_messages for them.
     places 0 on_connect_fail 1 on_connect 2 on_disconnect 3 on_message(arg after CONNACK) 4 wait chunk(arg)
     kinds 0 disconnect() 1 _thread_terminate=True; outcomes 0 refused 1 closed 2 CONNACK rc(arg) 3 accepted,
     EOF after arg 4 CONNACK rc 1 5 accepted, recv error after arg 6 accepted, broker silent (keepalive expiry at 2K)
@@ -92,9 +100,19 @@ def real_run(case):
     script, act = case["script"], case.get("act")
     C.t = T0
     K, v5 = case.get("K", 0), bool(case.get("v5", 0))
-    c = impl.make_client(reconnect_on_failure=bool(case["rof"]), api=1, protocol=mqtt.MQTTv5 if v5 else mqtt.MQTTv311)
+    pending = int(case.get("pending", 0)) if not v5 else 0
+    c = impl.make_client(reconnect_on_failure=bool(case["rof"]), api=1, protocol=mqtt.MQTTv5 if v5 else mqtt.MQTTv311,
+                         clean=not pending)
     c.reconnect_delay_set(case["min"], case["max"])
+    if pending:
+        c.max_inflight_messages_set(int(case.get("window", 1)))
     c.connect_async("h", keepalive=K)
+    if pending:
+        # QoS 1 messages accepted before the first connection, more than the in-flight window holds: at every accepting
+        # CONNACK _handle_connack retransmits one and leaves its loop early at the first queued one.  The back-off model
+        # has no such traffic - the delays must not depend on it (seed S-C09-5: the reset of the delay sat behind that loop)
+        for i in range(pending):
+            c.publish("t", b"p%d" % i, 1)
     tr = {"attempts": [], "waits": [], "cbs": [], "acts": [], "order": []}
     st = {"n": -1, "chunk": 0, "done": False, "in_connack": False}
 
@@ -362,8 +380,19 @@ def gen_cases(ctx):
         act = None
         if rng.random() < 0.5:
             act = rng.choice(places_for(sc)) + [rng.randrange(2)]
-        yield {"min": mn, "max": mx, "retry_first": rng.randrange(2), "rof": 0 if rng.random() < 0.15 else 1,
-               "K": K, "v5": v5, "act": act, "script": sc}, "random"
+        case = {"min": mn, "max": mx, "retry_first": rng.randrange(2), "rof": 0 if rng.random() < 0.15 else 1,
+                "K": K, "v5": v5, "act": act, "script": sc}
+        if not v5 and act is None and rng.random() < 0.5 and not any(o[0] == 7 for o in sc):      # outcome 7 = "the first write after CONNECT fails": meant to be the PINGREQ
+            case["pending"] = rng.choice([1, 2, 3, 5])
+            case["window"] = rng.choice([1, 1, 2, 20])
+        yield case, "random"
+    # stored QoS 1 traffic beyond / within the window under the small scripts
+    for sc in [list(s) for n in range(1, 4) for s in itertools.product(SYMS, repeat=n)]:
+        if not any(o[0] == 3 for o in sc):
+            continue
+        for pend, win in ((2, 1), (3, 2), (2, 20)):
+            mn, mx = rng.choice(PAIRS)
+            yield {"min": mn, "max": mx, "retry_first": 1, "rof": 1, "act": None, "script": sc, "pending": pend, "window": win}, "stored-traffic"
 
 
 def corpus_cases():
